@@ -80,7 +80,7 @@ TIERS = {
 
 def enumerate_behaviours(cfg_text, unfixed=None, timeout=3000, workers=None):
     d = tlc.prepare(unfixed)
-    r = tlc.run('Database.tla', 'MC_Database.cfg', workdir=d, cfg_text=cfg_text,
+    r = tlc.run('Database.tla', 'MC_gen.cfg', workdir=d, cfg_text=cfg_text,
                 timeout=timeout, workers=workers)
     if r['rc'] != 0 or r['errors']:
         raise tlc.TlcError('Database.tla: rc=%s\n%s' % (r['rc'], '\n'.join(r['errors'][:30])))
@@ -91,7 +91,7 @@ def design_check(family, rich, maxhist, unfixed, timeout=3000, workers=None):
     """TLC checks every clause of C19 as an invariant of the model itself
     (no emission).  Returns (the invariant TLC refutes first or None, stats)."""
     d = tlc.prepare(unfixed)
-    r = tlc.run('Database.tla', 'MC_Database_design.cfg', workdir=d,
+    r = tlc.run('Database.tla', 'MC_gen_design.cfg', workdir=d,
                 cfg_text=cfg(family, rich, maxhist, INVARIANTS), timeout=timeout,
                 workers=workers)
     with open(r['out_path'], errors='replace') as f:
@@ -331,15 +331,20 @@ class JsonFiles:
 
 
 def _exec_chunk(chunk):
-    return [execute(*job) for job in chunk]
+    out = []
+    for job in chunk:
+        # everything alive now is out of the collector's sight: the
+        # gc.collect() of a Release only examines what this history created
+        gc.freeze()
+        out.append(execute(*job))
+    return out
 
 
 def execute_all(jobs, chunk=200, timeout=3000):
     chunks = [jobs[i:i + chunk] for i in range(0, len(jobs), chunk)]
     if not chunks:
         return []
-    # frozen heap: the gc.collect() of every Release only looks at new objects
-    with mp.get_context('fork').Pool(common.NCPU, initializer=gc.freeze) as pool:
+    with mp.get_context('fork').Pool(common.NCPU) as pool:
         out = pool.map_async(_exec_chunk, chunks).get(timeout)
     return [o for c in out for o in c]
 
